@@ -16,7 +16,7 @@ checks = {
  "C03": ("ROUND (vertical zoom-out floors; sign-only floor corrections), NOSKIP (no input ID skipped on a partial seen-test), DISTINCT (every success return de-duplicated), KIND-CALL/KIND-LAYOUT (axes wired independently, every output field at the zoom of its own axis), AXISSYM (x and y bounds isomorphic), NOCLAMP (no index clamp / range check in the per-axis zoom functions; no constant vertical ID emitted), narrowing of an x/y/f index to fewer than 64 bits, WRAPPER, GUARD",
          "not decided: the child range is exactly [i*2^d,(i+1)*2^d-1] and the 4^dh*2^dv count (value arithmetic)",
          "component-kind inference, rounding-mode classification, distinctness lattice, sibling isomorphism on SSA"),
- "C04": ("ROUND (ancestor floors below ground), DISTINCT, ELIGIBILITY (3x3 ordering enumeration: pass-through iff coarser on some axis), UNIT-ZOOM (the unit zooms of the division are final per-axis maxima over all inputs: not a running maximum still in use, not one element's zooms), NOSKIP (no input, unit or group dropped), CACHE-KEY, KIND rules, WRAPPER, GUARD",
+ "C04": ("ROUND (ancestor floors below ground), DISTINCT, ELIGIBILITY (3x3 ordering enumeration: pass-through iff coarser on some axis), UNIT-ZOOM (the unit zooms of the division are final per-axis maxima over all inputs: not a running maximum still in use, not one element's zooms), NOSKIP (no input, unit or group dropped), CHUNK (a split of the input into chunks covers every element), WINDOW-APPEND (no uncapped sub-slice window stored where it is later appended to: groups cannot overwrite each other), CACHE-KEY, KIND rules, WRAPPER, GUARD",
          "not decided: region equality, density threshold, idempotence (value-level)",
          "rounding-mode classification + finite ordering enumeration over the CFG"),
  "C05": ("MINSEL/REUSE (both IDs aligned to the per-axis minimum zoom with ChangeExtendedSpatialIdsZoom), EXISTS-LOOP (array form = disjunction, false for empty lists), EVERY-ELEMENT/TYPESTATE (every ID inserted/queried, empty tree never queried), RANGEUSE (both key bounds consumed: known finding D8), ERRUSED, NOPARTIAL, GUARD",
@@ -43,7 +43,7 @@ checks = {
  "C12": ("ASHIFT/ROUND (all scaling is a signed shift = floor; no (b<<d | 1<<d) - 1 bit fill), RANGEUSE, INTERVAL (existence tests accept exactly [-2^z,2^z-1] / [0,2^z-1]), OUTRANGE (both returned bounds range-checked), UPPER-BOUND-FORM (scale(i+1)-1 only where the shift is known positive: found D11, fixed; D12 known finding), NOPARTIAL, KIND-LAYOUT (F vs key scale)",
          "NOT decided: the covering property itself (integer interval arithmetic over five unbounded parameters)",
          "rounding-mode classification + bound-expression shape analysis on SSA"),
- "C13": ("NOSKIP (no tile skipped on state kept from earlier tiles), KIND-STORE/KIND-CALL (hZoom,x,y copied field for field, vZoom = request's), RANGE-LOOP (emitted range = the two results of this tile's range call, value identity, also through a helper that hands the range on), CACHE-KEY (a memo of the range call is keyed by every varying argument), ELEMENTWISE, COMPOSE, DISTINCT, NOPARTIAL, OUTRANGE, MAXSEL, GUARD (tile zooms two-sided)",
+ "C13": ("NOSKIP (no tile skipped on state kept from earlier tiles), KIND-STORE/KIND-CALL (hZoom,x,y copied field for field, vZoom = request's), RANGE-LOOP (emitted range = the two results of this tile's range call, value identity, also through a helper that hands the range on), CACHE-KEY (a memo of the range call is keyed by every varying argument), ELEMENTWISE, COMPOSE, DISTINCT (incl. sort+Compact under a comparator that ignores a varying field), CHUNK, NOPARTIAL, OUTRANGE, MAXSEL, GUARD (tile zooms two-sided; undecided region rows are tried with a concrete witness call)",
          "not decided: that the emitted range is the covering range (C12's undecided part)",
          "component-kind inference + loop-bound value identity + call-graph composition"),
  "C14": ("REM-SIGN over the closure, INCLUDES (line IDs in every result variant: Unique/Union/Concat/appends flattened), FILTER-SUBSET (measured additions are current candidates behind distance < radius itself), LAYERFIT (layer counts = max fit over all line voxels), NOORDERDEP, DISTINCT, GUARD (negative radius, zooms, nil points)",
@@ -55,7 +55,7 @@ checks = {
  "C16": ("EFFECT-PARAM (no exported function writes caller data; type-filtered write sets), UNIT-ZOOM and NOSKIP (merge result independent of input order), NOORDERDEP (no positional use of map-ordered slices), MAPLOOP-COMMUTATIVE, DISTINCT / DISTINCT-PAIR rows, NONDET (no other nondeterminism source reachable)",
          "NOT decided: invariance of the result set under permutation / duplication of the input list in general (value-level confluence)",
          "interprocedural effect analysis + map-order taint"),
- "C18": ("PASSTHRU (altitude same value end to end; x/y exactly the transform's results), MAPORDER, ELEMENTWISE, ERRUSED (Safe transform error tested and mapped to the conversion error), CRS-ARGS (direction)",
+ "C18": ("PASSTHRU (altitude same value end to end; x/y exactly the transform's results), MAPORDER, ELEMENTWISE, ERRUSED (Safe transform error tested and mapped to the conversion error), CHUNK (batched conversion covers every point), CRS-ARGS (direction)",
          "NOT decided: Mercator numerics, 2e-10 round trip, agreement with the grid constants",
          "value-identity analysis on SSA"),
  "C20": ("ASHIFT (signed shift = floor), EMPTYGUARD, EFFECT-PARAM (helpers leave arguments alone), SETOP-SHAPE (the set-expression term derived from each helper - keys(set{..}), filter(P, hit|miss, set{..}), contains(P, x) - equals the definition of the operation it is named after; early exits are violations), MATMUL-INDEX",
